@@ -18,14 +18,16 @@ function deref(x, depth = 0) {
   return x;
 }
 
-export function diffRuntypes(a, b, seen = new Set(), depth = 0) {
+export function diffRuntypes(a, b, seen = new Map(), depth = 0) {
   a = deref(a);
   b = deref(b);
   if (a == null || b == null) return a == b ? null : "missing";
   if (depth > 60) return null;
-  const key = a;
-  if (seen.has(key)) return null;
-  seen.add(key);
+  // visited PAIRS (a shared, hoisted node may be compared with several different counterparts)
+  let bs = seen.get(a);
+  if (!bs) seen.set(a, (bs = new Set()));
+  if (bs.has(b)) return null;
+  bs.add(b);
   const ca = a.constructor.name,
     cb = b.constructor.name;
   if (ca !== cb) return `class:${[ca, cb].sort().join("/")}`;
